@@ -10,9 +10,16 @@
    resumption secret is the PSK theorem of C18.  ./check C17 runs successor / branch
    creation and joining for equal, smaller, larger and replaced member sets on trees with
    blank leaves and compares every verdict with this model evaluated in Coq.
+   The membership rule, the parameter checks, the id under which the joiner holds the old
+   group's resumption secret and the joiner's treatment of the Welcome's PSK list are also
+   TRANSLATED from group/resumption.rs and Group::psk_secret on every run (Gen/ResumeGen.v) and
+   proved equal to the models; on the model: the joiner feeds ITS OWN id for the old group into
+   the PSK chain and takes only the nonce from the Welcome, and refuses a Welcome whose first
+   PSK is not a re-init / branch resumption PSK (with C18's binding theorem: a Welcome made
+   under any other id, epoch, group or secret gives another PSK secret).
    Statements only. *)
 From Coq Require Import NArith List Bool.
-From MlsV Require Import Tree Subgroup SubgroupProofs.
+From MlsV Require Import Tree Subgroup SubgroupProofs ResumeGen ResumeGenProofs.
 Import ListNotations.
 Local Open Scope N_scope.
 
@@ -40,7 +47,38 @@ Example C17_node_count_rule_refuted :
   members_of old_tree = members_of new_tree /\ subgroup_ok_old Reinit old_tree new_tree = false /\ subgroup_ok Reinit old_tree new_tree = true.
 Proof. exact old_rule_refuted. Qed.
 
+Theorem C17_translated_membership_rule_is_the_model : forall typ old_tree new_tree,
+  gen_subgroup_ok typ (members_of old_tree) (members_of new_tree) = subgroup_ok typ old_tree new_tree.
+Proof. exact gen_subgroup_ok_is_model. Qed.
+
+Theorem C17_translated_join_parameters_are_the_model : forall typ e g,
+  gen_join_params (gen_verify_gid typ) e g = join_params_ok typ e g.
+Proof. exact gen_join_params_is_model. Qed.
+
+Theorem C17_translated_joiner_psk_is_the_model : forall typ gid epoch psks additional,
+  gen_expected_id typ gid epoch = expected_id typ gid epoch /\ gen_joiner_psk psks additional = joiner_psk psks additional.
+Proof. exact translated_joiner_psk. Qed.
+
+Theorem C17_joiner_injects_its_own_id : forall psks mine id nonce,
+  joiner_psk psks (Some mine) = JInject id nonce ->
+  id = mine /\
+  exists first rest u gid epoch,
+    psks = first :: rest /\ nonce = w_nonce first /\ w_id first = JResumption u gid epoch /\ u <> UApplication.
+Proof. exact joiner_psk_inject. Qed.
+
+Theorem C17_joiner_refuses_other_first_psk : forall psks mine,
+  psks = [] \/
+  (exists first rest x, psks = first :: rest /\ w_id first = JExternal x) \/
+  (exists first rest gid epoch, psks = first :: rest /\ w_id first = JResumption UApplication gid epoch) ->
+  joiner_psk psks (Some mine) = JUnexpected.
+Proof. exact joiner_psk_refuses. Qed.
+
 Print Assumptions C17_reinit_iff_same_members.
 Print Assumptions C17_branch_iff_subset.
 Print Assumptions C17_blank_leaves_do_not_matter.
 Print Assumptions C17_join_parameters.
+Print Assumptions C17_translated_membership_rule_is_the_model.
+Print Assumptions C17_translated_join_parameters_are_the_model.
+Print Assumptions C17_translated_joiner_psk_is_the_model.
+Print Assumptions C17_joiner_injects_its_own_id.
+Print Assumptions C17_joiner_refuses_other_first_psk.
